@@ -238,6 +238,27 @@ func init() {
 	})
 }
 
+// c06Damaged draws a program with one token deleted or inserted and maybe
+// an unterminated tail: a parser error, often followed by a lexer error.
+func c06Damaged(rt *rapid.T, maxDepth, maxBudget int) string {
+	o := genOpts()
+	o.NoHeredoc = rapid.Bool().Draw(rt, "nohd")
+	o.MaxDepth = rapid.IntRange(1, maxDepth).Draw(rt, "maxdepth")
+	o.Budget = rapid.IntRange(1, maxBudget).Draw(rt, "budget")
+	p := gen.Complete(gen.RapidChooser{T: rt}, o)
+	us := unitsOf(p.Stream)
+	i := rapid.IntRange(0, len(us)).Draw(rt, "at")
+	var m []c03Unit
+	if i < len(us) && rapid.Bool().Draw(rt, "delete") {
+		m = append(append(m, us[:i]...), us[i+1:]...)
+	} else {
+		ins := c03Insert[rapid.IntRange(0, len(c03Insert)-1).Draw(rt, "insert")]
+		m = append(append(append(m, us[:i]...), alphabetUnit(ins)), us[i:]...)
+	}
+	src, _, _ := renderUnits(m)
+	return src + rapid.SampledFrom([]string{"", "", " 'q", " $(", " ${x", " `a", " \"b"}).Draw(rt, "tail")
+}
+
 // c06Explore runs the input under all schedules (up to limit) and returns a
 // minimal case that shows a violation, if any.
 func c06Explore(c c06Case, limit int, extra [][]int) (runs int, exhausted bool, bad *c06Case, err error) {
@@ -383,23 +404,7 @@ func TestC06(t *testing.T) {
 			}
 			st.Class("input_valid")
 		case 2: // a damaged program: one token deleted / inserted, or an unterminated tail
-			o := genOpts()
-			o.NoHeredoc = rapid.Bool().Draw(rt, "nohd")
-			o.MaxDepth = rapid.IntRange(1, 2).Draw(rt, "maxdepth")
-			o.Budget = rapid.IntRange(1, 3).Draw(rt, "budget")
-			p := gen.Complete(gen.RapidChooser{T: rt}, o)
-			us := unitsOf(p.Stream)
-			i := rapid.IntRange(0, len(us)).Draw(rt, "at")
-			var m []c03Unit
-			if i < len(us) && rapid.Bool().Draw(rt, "delete") {
-				m = append(append(m, us[:i]...), us[i+1:]...)
-			} else {
-				ins := c03Insert[rapid.IntRange(0, len(c03Insert)-1).Draw(rt, "insert")]
-				m = append(append(append(m, us[:i]...), alphabetUnit(ins)), us[i:]...)
-			}
-			src, _, _ := renderUnits(m)
-			src += rapid.SampledFrom([]string{"", "", " 'q", " $(", " ${x", " `a", " \"b"}).Draw(rt, "tail")
-			c = c06Case{Kind: "parse", Src: src}
+			c = c06Case{Kind: "parse", Src: c06Damaged(rt, 2, 3)}
 			st.Class("input_damaged")
 		default: // arithmetic with faults and assignments
 			k := rapid.IntRange(1, 3).Draw(rt, "nexpr")
@@ -454,11 +459,12 @@ func TestC06Race(t *testing.T) {
 			o.Budget = rapid.IntRange(1, 5).Draw(rt, "budget")
 			p := gen.Complete(gen.RapidChooser{T: rt}, o)
 			src := gen.Render(p.Stream, gen.Canonical{}).Src
-			c := c06Case{Kind: "parse", Src: src}
 			if !excluded["no_join_on_error_paths"] && rapid.IntRange(0, 2).Draw(rt, "damage") == 0 {
-				// with the finding repaired, error paths are raced as well
-				src = strings.Replace(src, " ", " | | ", 1)
+				// error paths are raced as well
+				src = c06Damaged(rt, 3, 5)
+				st.Class("raced_damaged_program")
 			}
+			c := c06Case{Kind: "parse", Src: src}
 			jr.begin("C06", "race", c)
 			if !c06Within(60*time.Second, func() { parser.ParseCommands(nil, "c06", src) }) {
 				c.Src = src
